@@ -189,25 +189,25 @@ RecvHs1(n, id, via) ==
     IN
     /\ m.kind = "hs1"
     /\ tunout' = 0
-    /\ UNCHANGED <<clock, pend, sends, timers, early>>
+    /\ UNCHANGED <<clock, sends, timers, early>>
     /\ IF c \notin Trusts[n] \/ SetOf(va) \cap Own[n] # {}
-         THEN NoEmit /\ UNCHANGED <<msgs, tuns, hosts>>            \* certificate refused / "myself"
+         THEN NoEmit /\ UNCHANGED <<msgs, tuns, hosts, pend>>      \* certificate refused / "myself"
        ELSE IF first \in DOMAIN hosts[n] /\ \E k \in 1..Len(hosts[n][first]) : tuns[n][hosts[n][first][k]].hs1 = id
          THEN \* ErrAlreadySeen: only the cached reply is resent
               LET k == CHOOSE k \in 1..Len(hosts[n][first]) : tuns[n][hosts[n][first][k]].hs1 = id
                   t == tuns[n][hosts[n][first][k]]
               IN /\ Emit(IF t.hs2 # 0 THEN <<[id |-> t.hs2, to |-> via]>> ELSE <<>>)
-                 /\ UNCHANGED <<msgs, tuns, hosts>>
+                 /\ UNCHANGED <<msgs, tuns, hosts, pend>>
        ELSE IF first \in DOMAIN hosts[n] /\ tuns[n][Primary(n, first)].hsTime >= m.time /\ ~tuns[n][Primary(n, first)].init
          THEN \* ErrExistingHostInfo ("handshake too old"): a test request goes out on the existing primary
               LET t == tuns[n][Primary(n, first)] IN
               /\ msgs' = Append(msgs, Ctl("test", n, t.ridx, t.key, t.tx + 1))
               /\ tuns' = [tuns EXCEPT ![n][t.lidx].tx = t.tx + 1]
               /\ Emit(<<[id |-> Len(msgs) + 1, to |-> t.remote]>>)
-              /\ UNCHANGED hosts
+              /\ UNCHANGED <<hosts, pend>>
        ELSE \E i \in Idx :
               IF i \in MainIdx(n) \cup PendIdx(n)
-                THEN NoEmit /\ UNCHANGED <<msgs, tuns, hosts>>     \* ErrLocalIndexCollision: handshake dropped
+                THEN NoEmit /\ UNCHANGED <<msgs, tuns, hosts, pend>>     \* ErrLocalIndexCollision: handshake dropped
                 ELSE LET rid == Len(msgs) + 1
                          t == [lidx |-> i, ridx |-> m.initIdx, addrs |-> va, peer |-> c, init |-> FALSE,
                                hsTime |-> m.time, hs1 |-> id, hs2 |-> rid, key |-> <<id, rid>>, remote |-> via,
@@ -217,6 +217,9 @@ RecvHs1(n, id, via) ==
                         /\ hosts' = [hosts EXCEPT ![n] = r[1]]
                         /\ tuns'  = [tuns EXCEPT ![n] = r[2]]
                         /\ Emit(<<[id |-> rid, to |-> via]>>)
+                        \* RefreshFromHandshake: the remote list of the peer's first address forgets its blocked
+                        \* underlay addresses; a pending handshake for that address shares the list
+                        /\ pend' = IF first \in DOMAIN pend[n] THEN [pend EXCEPT ![n][first].blocked = {}] ELSE pend
 
 (* ---- stage 2 received: continueHandshake ---- *)
 RecvHs2(n, id, via) ==
